@@ -33,6 +33,9 @@ LINES = [
     ("1Bad port\t/pub\tgopher.example.org\tseventy", ("link", "1", "Bad port", "/pub", "gopher.example.org", None)),
     ("1home\t\tgopher.example.org\t70", ("link", "1", "home", "{B}/home", "gopher.example.org", 70)),
     ("1Archive, port only\t/archive\t\t7070", ("link", "1", "Archive, port only", "/archive", None, 7070)),
+    # a missing selector is the description itself - which may be absolute or a URL: then nothing is put in front of it
+    ("1/pub\t", ("link", "1", "/pub", "/pub", None, None)),
+    ("hURL:http://example.org/x\t", ("link", "h", "URL:http://example.org/x", "URL:http://example.org/x", None, None)),
     ("  indented text", ("info", "indented text")),
     ("9binary\tfiles/a.bin", ("link", "9", "binary", "{B}/files/a.bin", None, None)),
     # a line ends at the line feed and nowhere else: form feed, vertical tab, a lone CR, U+2028 and U+0085 are part of the text
